@@ -1135,6 +1135,8 @@ func (w *world) stringPool(rng *vh.Rng) []string {
 		"3", "0", "100", "101", "-5", "+7", "03", "1e3", "abc", "500000000000000000000000000", "500000000000000000000000001", "1_000",
 		"p2pwhite", "P2PBLACK", "accountwhite", "RPCPERMISSIONS", "rpcperm\u0131ss\u0131ons", "nokey", "a\\b", "YWJj:W", "YWJj:r", "YWJj", "!!!:W", "a:b:c", ":", "YWJj:",
 		`{"peerid":"","address":"","cidr":"10.0.0.0/8"}`, `{"peerid":"x"}`,
+		// values a dedicated checker accepts but that contain the separator of the stored form (backslash)
+		"dGVzdA==:R\\x", "YWJj:W\\", `{"peerid":"","address":"","cidr":"10.0.0.0\/8"}`,
 	}
 }
 
@@ -1379,6 +1381,10 @@ func main() {
 	// phase 5: the admin tries to add a 3-byte "address" (DecodeAddress takes names); before fix 2586c6fa this was
 	// accepted and the admin list stopped being a multiple of 33 bytes
 	attempt(one(w, 0, ent, `{"Name":"appendAdmin","Args":["abc"]}`, nil, true)) // refused since fix 2586c6fa (admins must be 33 bytes)
+	// a permission whose right part carries the separator of the stored form: refused; were it stored, it would be read back
+	// as two values, the second without ':' (Conf.Validate splits on ':')
+	attempt(one(w, 0, ent, `{"Name":"appendConf","Args":["rpcpermissions","dGVzdAo=:R\\x"]}`, nil, true))
+	attempt(one(w, 0, ent, `{"Name":"appendConf","Args":["p2pwhite","{\"peerid\":\"\",\"address\":\"\",\"cidr\":\"10.0.0.0\\/8\"}"]}`, nil, true))
 	{
 		g := &gen{w: w, rng: rng}
 		g.structured(false)
